@@ -211,6 +211,9 @@ def err_consumed(E, roots, ret_terms):
     return "REJECTED", "the error payload is extracted but does not reach the return value (only logged / ignored?)"
 
 
+NO_ROW_QUERIES = {"rusqlite::Connection::query_row", "rusqlite::statement::Statement::<'_>::query_row"}
+
+
 def adapter_root(t):
     """Innermost call of an adapter chain  optional(context(branch(CALL))) -> CALL."""
     seen = 0
@@ -220,11 +223,17 @@ def adapter_root(t):
     return t
 
 
+ERR_KEEPING = {"anyhow::Context::context", "anyhow::Context::with_context", "core::result::Result::<T, E>::map_err"}
+
+
 def is_error_exit(term):
     if term[0] == "call" and term[1] == FROM_RESIDUAL:
         return True
     if term[0] == "agg" and isinstance(term[1], tuple) and term[1][0] == "adt" and term[1][2] == "Err":
         return True
+    # `Err(e).context("..")` / `.map_err(..)` applied to a value that is an error already
+    if term[0] == "call" and term[1] in ERR_KEEPING and term[3]:
+        return is_error_exit(term[3][0])
     return False
 
 
@@ -237,15 +246,33 @@ def path_status(W, body, T):
     # (for `x.ok_or(e)` / `x.ok_or_else(..)` the test of the Result is the test of x: Err <=> x is None)
     base = P.strip_ok_preserving(T)
     atoms = [a for a in g.atoms if a[0] == "VARIANT" and (adapter_root(a[1]) == T or (base != T and a[1] == base))]
+    pv = W.prov(body)
+    # the Result may first be bound to a local that has other definitions too (`let r = if .. { call() } else { Err(..) }`, a
+    # desugared `and_then`): a test of that local is a test of this call on the paths where this definition is the live one
+    sel = {}
+    for a in g.atoms:
+        if a[0] != "VARIANT" or a in atoms:
+            continue
+        root = adapter_root(a[1])
+        if root[0] == "phi":
+            for d in pv.defsites.get(root[1], []):
+                if adapter_root(pv.def_term(d)) == T:
+                    sel[a] = (("def", root[1]), frozenset([d]))
+    atoms = atoms + list(sel)
     if not atoms:
         return None
-    pv = W.prov(body)
     errv = frozenset(["err"])
+
+    def holds(val, a, v):
+        if val.get(a) != v:
+            return False
+        s_ = sel.get(a)
+        return s_ is None or val.get(s_[0]) == s_[1]
     from rules import shared as S_
     succ_blocks = set(d[0] for d, t in S_.exits(W, body) if not is_error_exit(t))
     ret_blocks = set(b["i"] for b in body.blocks if b["term"]["k"] == "return" and not b["cleanup"])
     starts = [y for x, ys in g.edges.items() for y in ys
-              if any(dict(y[1]).get(a) == errv and dict(x[1]).get(a) != errv for a in atoms)]
+              if any(holds(dict(y[1]), a, errv) and not holds(dict(x[1]), a, errv) for a in atoms)]
     if not starts:
         return None
     seen = set()
@@ -257,8 +284,12 @@ def path_status(W, body, T):
             continue
         seen.add(x)
         val = dict(x[1])
-        still = any(val.get(a) == errv for a in atoms)
+        still = any(holds(val, a, errv) for a in atoms)
         if still and (x[0] in succ_blocks or (unit_ret and x[0] in ret_blocks)):
+            # the one legitimate "failure" that is an answer: a row query that found no row (what `.optional()` does),
+            # spelled as an explicit `Err(QueryReturnedNoRows) => Ok(None)` arm
+            if T[1] in NO_ROW_QUERIES and val.get(("VARIANT", ("err", T))) == frozenset(["QueryReturnedNoRows"]):
+                continue
             return "REJECTED", "a non-error return (line %d) is reachable on a path where the call failed: the failure is swallowed" % body.line_of_block(x[0])
         if not still:
             continue          # the call was re-run (or its outcome re-bound): a new outcome is judged on its own
